@@ -31,7 +31,8 @@ RULE = (
     "pass uses a custom settings.errors catalogue (every message replaced, one by a callable); digests of all error lists "
     "are compared between two interpreters with different PYTHONHASHSEED; history pass on the same compiled method: every "
     "datum again carried by OrderedDict / list subclasses (same errors), then every rejected datum again (same errors as the "
-    "first time). distinct_nontrivial counts distinct "
+    "first time). Discriminated unions (11 unions of C13's world) x 27 field-state bodies x 0..2 unexpected properties x "
+    "every mapped key: the error list equals, in order, the one of the named alternative alone. distinct_nontrivial counts distinct "
     "(ctor-pair shape, options, deviations, number of error entries, set of message kinds) tuples."
 )
 
@@ -338,8 +339,75 @@ def set_catalogue(cat):
     apischema.cache.reset()  # settings.errors is not cache-aware on the unchanged tree (C09's business)
 
 
+def run_discriminated(st):
+    """discriminated unions (C13's world): the errors of the union on d are, exactly and in order, the errors of the
+    alternative the discriminator names on d (without the discriminator key when the alternative does not declare it),
+    for every combination of field states {absent, valid, invalid} and 0..2 unexpected properties"""
+    import itertools
+
+    from ..realize import PRELUDE, exec_source
+    from .c13 import DISC_SRC
+
+    mod = exec_source(PRELUDE + DISC_SRC)
+    bodies = []
+    for states in itertools.product((None, 1, "bad"), repeat=3):
+        for extra in ((), ("zz",), ("zz", "yy")):
+            b = {k: v for k, v in zip(("x", "n", "v"), states) if v is not None}
+            b.update({k: 0 for k in extra})
+            bodies.append(b)
+    for name, (utp, key, mapping, declares) in mod.EXPECT.items():
+        for ap in (False, True):
+            try:
+                um = apischema.deserialization_method(utp, additional_properties=ap)
+            except Exception as e:
+                st.violation({"label": name, "signature": {"kind": "disc_compile", "union": name}, "what": f"{name}: {e!r}"[:300]})
+                continue
+            for k in list(mapping) + ["nope", "<absent>"]:
+                for body in bodies:
+                    d = dict(body)
+                    if k != "<absent>":
+                        d[key] = k
+                    st.case("disc", name, ap, k, tuple(sorted(body.items(), key=repr)))
+                    kind, out = dc.run_impl(um, dict(d))
+                    base = {"label": "disc:" + name, "datum": repr(d), "options": [str(ap)]}
+                    if kind == "exc":
+                        st.count("disc_exception(C03 reports it)")
+                        continue
+                    got = dc.impl_errors(out) if kind == "err" else None
+                    alt = mapping.get(k)
+                    if alt is None:
+                        if got is None or [loc for loc, _ in got] != [(key,)]:
+                            st.violation(dict(base, signature={"kind": "disc_key_error", "union": name, "absent": k == "<absent>"}, what=f"{name} <- {d!r}: expected one error at [{key!r}], got {got}"[:400]))
+                        continue
+                    d_alt = dict(d)
+                    if alt not in declares:
+                        d_alt.pop(key, None)
+                    ak, aout = dc.run_impl(apischema.deserialization_method(alt, additional_properties=ap), d_alt)
+                    if ak == "exc":
+                        continue
+                    exp = dc.impl_errors(aout) if ak == "err" else None
+                    if got != exp:
+                        st.violation(
+                            dict(
+                                base,
+                                signature={"kind": "disc_errors_differ", "union": name, "alt": alt.__name__, "lost": bool(exp) and (got is None or len(got) < len(exp))},
+                                what=f"{name} <- {d!r}: errors {got} but {alt.__name__} alone on {d_alt!r} gives {exp}"[:500],
+                            )
+                        )
+    import sys
+
+    sys.modules.pop(mod.__name__, None)
+
+
 def work(tier, widx, nworkers, st, extra):
     mode = (extra or {}).get("mode", "main")
+    if mode == "main" and widx == 0 and os.environ.get("VERIF_ONLY") in (None, "", "disc"):
+        try:
+            run_discriminated(st)
+        except Exception:
+            import traceback
+
+            st.violation({"signature": {"kind": "harness_error"}, "harness_error": True, "what": "discriminated world", "traceback": traceback.format_exc()[-2000:]})
     if mode == "main":
         for i, label, spec in dc.my_types(tier, widx, nworkers):
             run_type(i, label, spec, tier, st)
@@ -416,6 +484,14 @@ def main(tier: str, t0: float) -> int:
 def replay(path: str) -> int:
     v = json.load(open(path))
     label = v["label"]
+    if label.startswith("disc:"):
+        st = infra.Stats()
+        run_discriminated(st)
+        hits = [x for x in st.violations if x.get("signature") == v.get("signature")]
+        for x in hits[:3]:
+            print("VIOLATION property=C02 replay=" + path)
+            print(" ", x["what"])
+        return 1 if hits else 0
     for lab, spec in gen_types("thorough"):
         if lab == label:
             break
